@@ -331,7 +331,8 @@ theorem C13_history_rerun (hist : List Str) (t : Str) (hl : hist.length ≤ hist
 eight slots (recording connections, two telnet clients, a raw-TCP client, the stdio service), option
 changes, connects / disconnects / reconnects, loop passes, a teardown of the whole terminal while exit
 tasks are queued, command handlers that act on their own session while the command is executing (send,
-feed keys and whole lines — `exit`, `!!`, `!n` included — nested to the depth set, end the session),
+feed keys and whole lines — `exit`, `!!`, `!n` included — nested to the depth set, end or delete the session,
+delete / mount / umount ANY node of the tree, their own node and the root included, with the rest of the line still to run),
 and in particular any received byte strings in any segmentation — the repaired code
 never reaches an outcome that stands for a crash, an uncaught exception or an invalid access: no use
 of a freed session or terminal, no `back()` of an empty history, no escaping `std::out_of_range`, no
@@ -678,9 +679,9 @@ only noted; (2) when the delivery has been processed the slot's session is gone,
 that stands for an invalid access is produced on the way (the delivery's own events are passed on unchanged apart from the
 note). The code as found freed the pooled context on the spot and went on using it: last conjunct of
 `C13_total_legacy_counterexample`. -/
-theorem C13_delete_in_handler (feed : Feed) (s : St) (r : List Act)
+theorem C13_delete_in_handler (ns : Nodes) (feed : Feed) (s : St) (r : List Act)
     (w : World) (k : Nat) (x : Slot) (so : Option St) (evs : List Ev) (hk : k < w.slots.length) (hd : Ev.delS ∈ evs) :
-    runScript feed s (.del :: r) = ((runScript feed s r).1, .delS :: (runScript feed s r).2) ∧
+    runScript ns feed s (.del :: r) = ((runScript ns feed s r).1, .delS :: (runScript ns feed s r).2) ∧
     ((finishSlot Cfg.fixed w k x so evs).1.slot k).sess = none ∧
     (∀ j, k ≠ j → (finishSlot Cfg.fixed w k x so evs).1.slot j = w.slot j) ∧
     ((∀ e ∈ evs, e.isBad = false) → ∀ e ∈ (finishSlot Cfg.fixed w k x so evs).2, e.isBad = false) := by
@@ -835,5 +836,113 @@ theorem C13_hexstr_width (data : Str) (n : Nat) (u : Bool) (delim : Str) :
 
 example : rawHex [0, 255, 16] 3 false [58] = [48, 48, 58, 102, 102, 58, 49, 48] ∧ rawHex [0, 255, 16] 65538 true [] = [48, 48, 70, 70] ∧
     splitBy [97, 98] [120, 97, 98, 121, 97, 98, 97, 98] = [[120], [121], [], []] := by decide
+
+/-! ## C13_tree_in_handler (patches 12, 13) — command handlers that change the node tree -/
+
+theorem eff_eff (s : St) (ns : Nodes) : s.eff (s.eff ns) = s.eff ns := by
+  unfold St.eff; cases s.tree <;> rfl
+
+theorem finishSlot_nodes (cfg : Cfg) (w : World) (k : Nat) (x : Slot) (so : Option St) (evs : List Ev) :
+    (finishSlot cfg w k x so evs).1.nodes = w.nodes := by
+  unfold finishSlot; simp only; cases kindOf k <;> rfl
+
+theorem finishSlot_sess_tree (cfg : Cfg) (w : World) (k : Nat) (x : Slot) (so : Option St) (evs : List Ev)
+    (hk : k < w.slots.length) (hso : ∀ s, so = some s → s.tree = none) :
+    ∀ s', ((finishSlot cfg w k x so evs).1.slot k).sess = some s' → s'.tree = none := by
+  have hget : ∀ y : Slot, (w.setSlot k y).slot k = y := by
+    intro y; simp [World.slot, World.setSlot, List.getD_eq_getElem?_getD, hk]
+  have hif : ∀ (b : Bool) s', (if b = true then none else so) = some s' → s'.tree = none := by
+    intro b s' h; split at h
+    · cases h
+    · exact hso s' h
+  unfold finishSlot
+  simp only
+  cases kindOf k <;> simp only []
+  · intro s' h; rw [show ∀ y e, (({ w.setSlot k y with exits := e } : World).slot k) = (w.setSlot k y).slot k from fun _ _ => rfl, hget] at h
+    exact hif _ s' h
+  · intro s' h; rw [show ∀ y e f, (({ w.setSlot k y with exits := e, frontEnd := f } : World).slot k) = (w.setSlot k y).slot k from fun _ _ _ => rfl, hget] at h
+    exact hif _ s' h
+  · intro s' h; rw [show ∀ y e f, (({ w.setSlot k y with exits := e, frontEnd := f } : World).slot k) = (w.setSlot k y).slot k from fun _ _ _ => rfl, hget] at h
+    exact hif _ s' h
+  · intro s' h; rw [show ∀ y e, (({ w.setSlot k y with exits := e } : World).slot k) = (w.setSlot k y).slot k from fun _ _ => rfl, hget] at h
+    split at h
+    · cases h
+    · split at h
+      · cases h
+      · first | exact hif _ s' h | exact hso s' h
+
+/-- **C13_tree_in_handler.** Command handlers that change the Terminal's node tree (`deleteNode`, `mountNode`, `umountNode` of ANY
+node: the handler's own node, the directory it is mounted in, the current directory of the session, the root) while the input
+line that called them is still being executed — for EVERY tree, script, session, nesting of feeds and input:
+(1) the change is in force at once: the rest of the handler's script runs on the changed tree; (2) every later command of the
+same line, of the same segment and of nested feeds looks at the tree the handlers have left (`St.eff`), whatever the tree
+was when the delivery began; (3) a whole delivery on ANY tree (root deleted, dangling or stale tokens in the session's path,
+cycles) with ANY scripts never produces an outcome that stands for an invalid access — in particular `tree` of a deleted root
+answers with a message (patch 12) and a handler that deleted its own node is run to its end (patch 13); (4) when the delivery
+has been processed the World's tree IS the tree the handlers left, the stored session carries no private tree any more, and (5)
+no other session slot is touched. -/
+theorem C13_tree_in_handler (cfg : Cfg) (ns : Nodes) (feed : Feed) (s : St) (r : List Act) (i p c : Nat) (name : Str) :
+    (runScript ns feed s (.rm i :: r) =
+      ((runScript ns feed { s with tree := some (rmNode (s.eff ns) i) } r).1,
+       .tag "h-rm" :: (runScript ns feed { s with tree := some (rmNode (s.eff ns) i) } r).2) ∧
+     runScript ns feed s (.mnt p c name :: r) =
+      ((runScript ns feed { s with tree := some (mountNode (s.eff ns) p c name) } r).1,
+       .tag "h-mount" :: (runScript ns feed { s with tree := some (mountNode (s.eff ns) p c name) } r).2) ∧
+     runScript ns feed s (.umnt p name :: r) =
+      ((runScript ns feed { s with tree := some (umountNode (s.eff ns) p name) } r).1,
+       .tag "h-umount" :: (runScript ns feed { s with tree := some (umountNode (s.eff ns) p name) } r).2)) ∧
+    (∀ inner rerun line, executeCmd cfg ns feed inner rerun s line = executeCmd cfg (s.eff ns) feed inner rerun s line) ∧
+    (∀ d bs, SInv s → ∀ e ∈ (recvStringD Cfg.fixed ns d s bs).2, e.isBad = false) ∧
+    (∀ (w : World) (k : Nat) (bs : Str) (s0 : St), k < w.slots.length → (w.slot k).sess = some s0 →
+      (deliver cfg w k bs).1.nodes = (recvStringD cfg w.nodes w.depth s0 bs).1.eff w.nodes ∧
+      (∀ s', ((deliver cfg w k bs).1.slot k).sess = some s' → s'.tree = none) ∧
+      (∀ j, k ≠ j → (deliver cfg w k bs).1.slot j = w.slot j)) := by
+  refine ⟨⟨rfl, rfl, rfl⟩, ?_, ?_, ?_⟩
+  · intro inner rerun line
+    unfold executeCmd
+    rw [eff_eff]
+  · intro d bs hs
+    exact (recvStringD_safe ns d s bs hs).2
+  · intro w k bs s0 hk hs0
+    refine ⟨?_, ?_, fun j h => deliver_other cfg w k j bs h⟩
+    · unfold deliver; simp only [hs0]; rw [finishSlot_nodes]; rfl
+    · unfold deliver; simp only [hs0]
+      have hk' : k < (landTree w (some (recvStringD cfg w.nodes w.depth s0 bs).1)).slots.length := by
+        rw [landTree_slots]; exact hk
+      exact finishSlot_sess_tree cfg _ k _ _ _ hk' (by intro s1 h1; cases h1; rfl)
+
+/-- **C13_no_stale_tree.** The global form of (4), repaired code: after EVERY op sequence no stored session carries a private
+node tree — the tree a handler left behind has always been handed over to the Terminal (`landTree`) by the time the delivery
+is over, so a later delivery to any session starts from the World's tree and can never be shadowed by a stale copy. -/
+theorem C13_no_stale_tree (ops : List Op) (k : Nat) (s : St) (h : ((run Cfg.fixed {} ops).1.slot k).sess = some s) :
+    s.tree = none :=
+  ((run_inv {} ops winv_init).slot k s h).2
+
+-- non-vacuity: a session exists after a delivery whose handler changed the tree, and the World's tree is the changed one
+example : ((run Cfg.fixed {} [.mkfunc [.rm 1], .mount 0 1 [102], .openS 2, .recv [102, 13, 10]]).1.slot 0).sess.isSome = true ∧
+    (run Cfg.fixed {} [.mkfunc [.rm 1], .mount 0 1 [102], .openS 2, .recv [102, 13, 10]]).1.nodes = [some (.dir [([102], 1)]), none] := by
+  decide +kernel
+
+-- non-vacuity: the session stands in `/d`; `f` (mounted in `d`) deletes `d` and then the root; the same line goes on: `tree`
+-- names the deleted current directory, `cd ..` finds the deleted root, `tree /` answers `/ node has been deleted.`
+example : (untag (run Cfg.fixed {} [.mkdir, .mkfunc [.rm 1, .rm 0], .mount 0 1 [100], .mount 1 2 [102], .openS 2, .recv [99, 100, 32, 100, 13, 10],
+      .recv ([102, 59, 116, 114, 101, 101, 59, 99, 100, 32, 46, 46, 59, 116, 114, 101, 101, 32, 47] ++ [13, 10])]).2).drop 18 =
+    [.slot 0, .entered, .exec [102, 59, 116, 114, 101, 101, 59, 99, 100, 32, 46, 46, 59, 116, 114, 101, 101, 32, 47], .probe 2 [[102]],
+     .tx .out [60, 50, 62, 13, 10], .tx .out ([100] ++ Msg.nodeDeleted), .tx .out (Msg.errQ ++ [46, 46] ++ Msg.qDeleted),
+     .tx .out ([47] ++ Msg.nodeDeleted),
+     .stored [102, 59, 116, 114, 101, 101, 59, 99, 100, 32, 46, 46, 59, 116, 114, 101, 101, 32, 47], .slot 8, .line "ret=1"] := by
+  decide +kernel
+
+/-- **C13_tree_legacy_counterexample.** The code as found: `tree` after `deleteNode(rootNode())` calls `back()` on the empty
+path (with patches 01..11); a handler that deletes its own node destroys the `std::function` it is running in (with patches
+01..12). -/
+theorem C13_tree_legacy_counterexample :
+    (run { Cfg.fixed with treeRoot := false } {} [.rmnode 0, .openS 1, .recv [116, 114, 101, 101, 13, 10]]).2.contains (.bad .emptyBack) = true ∧
+    (run { Cfg.fixed with treeRoot := false } {}
+      [.mkfunc [.rm 0], .mount 0 1 [102], .openS 1, .recv [102, 59, 116, 114, 101, 101, 13, 10]]).2.contains (.bad .emptyBack) = true ∧
+    (run { Cfg.fixed with funcCopy := false } {}
+      [.mkfunc [.rm 1, .send [104]], .mount 0 1 [102], .openS 1, .recv [102, 13, 10]]).2.contains (.bad .useAfterFree) = true ∧
+    (run Cfg.fixed {} [.mkfunc [.rm 1, .rm 0, .send [104]], .mount 0 1 [102], .openS 1, .recv [102, 59, 116, 114, 101, 101, 13, 10]]).2.all (fun e => !e.isBad) = true := by
+  decide +kernel
 
 end Tbox.C13
